@@ -13,6 +13,8 @@ def protocol_violations(obs_op, settings):
     it = int(obs_op.get("iter", 0))
     if it > MI: V.append(("C12.iter", "iter %d > max_iter %d" % (it, MI)))
     if len(tr) > (MI + 1) * (R + 2) + 2 + (R + 3): V.append(("C12.bound", "%d factorisation calls exceed the bound" % len(tr)))
+    if tr and tr[0][2] != 0:
+        V.append(("C12.protocol", "retry counter is %d at the first factorisation of a solve (stale from the previous solve)" % tr[0][2]))
     for j, (k, iters, retries, refine, fail) in enumerate(tr):
         nxt = tr[j + 1] if j + 1 < len(tr) else None
         if iters > MI: V.append(("C12.iter", "factorisation at iter %d > max_iter" % iters))
@@ -63,6 +65,14 @@ def run(ctx):
             if ci % 3 == 0:
                 ops += ["FAULTS %d %s" % (K, " ".join(map(str, reversed(mk)))), G.op_solve()]; pbm[2] = pb
             cases.append(SS.Case("f%d" % ci, st, ops, pbm, ["mask" + "".join(map(str, mk)), "R%d" % R])); ci += 1
+    # a solve that exhausts the retries followed by a re-solve with few transient failures
+    for pb in pbs:
+        for pat in ([1], [1, 1], [0, 1], [1, 0, 1], [1, 1, 1]):
+            R = rng.choice([1, 2])
+            st = list(G.FRIENDLY) + [("max_iter", "30"), ("max_factor_retires", str(R)), ("preconditioner_iter", "1")]
+            ops = ["CPBITS 64", G.op_setup(pb), "FAULTS %d %s" % (R + 3, " ".join(["1"] * (R + 3))), G.op_solve(),
+                   "FAULTS %d %s" % (len(pat), " ".join(map(str, pat))), G.op_solve()]
+            cases.append(SS.Case("n%d" % ci, st, ops, {1: pb, 2: pb}, ["after-numerics:" + "".join(map(str, pat)), "R%d" % R])); ci += 1
     # random bursts
     for i in range(20 if ctx.quick() else 300):
         h = SS.gen_history(rng, "r%d" % i, focus=("mixed", "updates")[i % 2], force_settings=[("max_factor_retires", str(rng.choice([1, 2, 4])))])
